@@ -68,18 +68,30 @@ class Budget(Exception):
 
 
 class Cfg:
-    __slots__ = ('queue', 'cur', 'state', 'stack')
+    __slots__ = ('queue', 'cur', 'state', 'stack', 'last')
 
-    def __init__(self, queue, cur, state, stack):
-        self.queue, self.cur, self.state, self.stack = queue, cur, state, stack
+    def __init__(self, queue, cur, state, stack, last=None):
+        self.queue, self.cur, self.state, self.stack, self.last = queue, cur, state, stack, last
 
     def key(self):
-        return (self.queue, self.cur, self.state, self.stack)
+        return (self.queue, self.cur, self.state, self.stack, self.last)
 
     def with_(self, **kw):
-        d = {'queue': self.queue, 'cur': self.cur, 'state': self.state, 'stack': self.stack}
+        d = {'queue': self.queue, 'cur': self.cur, 'state': self.state, 'stack': self.stack, 'last': self.last}
         d.update(kw)
         return Cfg(**d)
+
+
+# what the writers put on the output, as far as the structure of the text is concerned: the last structural indicator
+# written (or 'x' for node content, 'dir' for a directive line) is part of the configuration, and these successions must
+# never occur
+CONTENT_WRITERS = {'process_scalar': 'x', 'write_version_directive': 'dir', 'write_tag_directive': 'dir'}
+FORBIDDEN_SUCCESSION = {
+    ('[', ','): 'a "," directly after "[" (an empty flow sequence written as "[,]")',
+    ('{', ','): 'a "," directly after "{" (an empty flow mapping written as "{,}")',
+    (',', ','): 'two "," in a row',
+}
+NODE_STARTS = ('x', '[', '{', '-', '?', '&', '*', '!')
 
 
 class EmitterModel:
@@ -117,6 +129,7 @@ class EmitterModel:
         self.ev_mod = repo.modules.get('events')
         self._sub = {}
         self._emit_memo = {}
+        self.successions = {}
 
     def tick(self):
         self.budget -= 1
@@ -322,6 +335,18 @@ class EmitterModel:
             if fn.attr in self.control:
                 return self.call(fn.attr, e, c, env)
             # opaque helper (writers, process_*, prepare_*): arguments evaluated for their effects, result unknown
+            cur = None
+            if fn.attr == 'write_indicator' and e.args and isinstance(e.args[0], ast.Constant) and isinstance(e.args[0].value, str):
+                cur = e.args[0].value.strip()
+            elif fn.attr in CONTENT_WRITERS:
+                cur = CONTENT_WRITERS[fn.attr]
+            elif fn.attr == 'process_anchor' and e.args and isinstance(e.args[0], ast.Constant) and e.args[0].value == '*':
+                cur = 'x'           # an alias is always written
+            if cur:
+                prev = c.last
+                if (prev, cur) in FORBIDDEN_SUCCESSION:
+                    self.successions.setdefault((prev, cur), (e.lineno, FORBIDDEN_SUCCESSION[(prev, cur)]))
+                c = c.with_(last=cur)
         states = [c]
         for a in list(e.args) + [k.value for k in e.keywords]:
             nxt = []
@@ -661,7 +686,7 @@ def r_emitter_grammar(ctx, repo, max_len=7, slack=2):
         for i in range(len(s)):
             if i <= max_len - 1:
                 prefixes.add(s[:i])
-    init_key = ((), None, start, ())
+    init_key = ((), None, start, (), None)
     after = {(): frozenset({init_key})}
 
     def run(seq):
@@ -716,6 +741,9 @@ def r_emitter_grammar(ctx, repo, max_len=7, slack=2):
         rule.fail('emitter-grammar|missing|%s' % show(w), E.module.rel, E.node.lineno, E.qualname, 'class Emitter',
                   'the emitter raises EmitterError on well-formed event streams, e.g. "%s" (%d such streams up to length %d)'
                   % (show(w), len(missing), max_len), inp=show(w))
+    for (prev, cur), (line, what) in sorted(model.successions.items()):
+        rule.fail('emitter-output|%s|%s' % (prev, cur), E.module.rel, line, E.qualname, 'write_indicator(%r)' % cur,
+                  'on some well-formed event stream the emitter writes %s: the text does not parse back' % what)
     if not extra and not missing:
         rule.ok('%s:%d' % (E.module.rel, E.node.lineno),
                 'all %d well-formed streams of length <= %d are processed, all %d ill-formed completions are rejected (%d emit transitions)'
